@@ -70,6 +70,16 @@ RULE = ('one case = one complete schedule of the real Rmcp shared by 2..4 real t
         'and a random loss plan; judged by the same Lean monitor (session sequence numbers strictly increasing over the '
         'whole wire log, retransmissions included; a call returns its own reply, or an error after a time-out on its '
         'own datagram) and validated against the Lean model with the same retry budget and loss plan.  '
+        'Different-targets stream (always on): application threads that address DIFFERENT targets on the one interface - '
+        'another IPMB address un-bridged (82h, 72h), a node behind one bridge (82h through the BMC, one Send Message '
+        'envelope) or two (72h, two envelopes) - next to each other, to the keep-alive and to Close Session, which address '
+        'the BMC; the fake BMC answers a bridged request with acknowledgement(s) and the wrapped reply (2..3 datagrams per '
+        'exchange) or with the reply embedded in one; every configuration of a fixed list without preemption, then every '
+        'schedule with <= 1..2 (thorough: 2..4) preemptions at lock/socket and shared-access granularity; a quarter of the '
+        'random configurations give their workers random targets.  Judged by the Lean monitor in its multi-datagram form '
+        '(clause X\': an exchange is tx (rx)+ owned by one thread); un-bridged configurations are also validated against '
+        'the Lean model; a violation is re-run with every worker addressing the BMC (same schedule) - clean there = it '
+        'takes different targets (signature suffix).  '
         'Distinct by (configuration, choice list); non-trivial = at least '
         'one context switch between two threads that both still have work.')
 ASSUMPTIONS = [
@@ -101,7 +111,21 @@ ASSUMPTIONS = [
     'which of the model\'s variants the traces are validated against (stopper joins / sequence number allocated inside '
     'the lock block / session wrapper packed by the transmission of every attempt) is probed on the real code and '
     'cross-checked with the translator\'s reading of the AST',
-    'model covers unbridged targets (the configuration explored); max_retries: the theorems hold for every value, the '
+    'one lock for every target: the Lean model has ONE lock cell and un-bridged exchanges (one reply per datagram).  That '
+    'the source takes the same lock object whatever target a request addresses is read by the translator (Shape.oneLock: '
+    '`with self.transaction_lock:` on the attribute itself, no other with-statement in _send_and_receive, the attribute '
+    'assigned once - threading.Lock() in __init__ -, no other lock created in class Rmcp) and is part of source_shape / '
+    'source_is_safe_variant; a lock chosen per target (`with self._lock_for(target):`) breaks that tie, its model variant '
+    '(Props.C14.stepT) has the counter-example lock_per_target_counterexample, and the failing schedule is found on the '
+    'real code by the different-targets stream.  Schedules whose threads address bridged targets are judged on the real '
+    'code by the multi-datagram monitor only (Spec.Threads.acceptsMulti; exchangesOk_imp_multi: it accepts whatever the '
+    'one-reply monitor accepts) - they are not validated against the model; an un-bridged request to another IPMB address '
+    'is the same program as one to the BMC and IS validated against it',
+    'the fake BMC answers for every addressed node: an un-bridged request to any rsSA gets one reply; a Send Message with '
+    'an embedded request is answered per IPMI v1.5 response tracking - bare acknowledgement, then the node\'s answer in '
+    'the same envelope, one more pair per further bridge - or with the answer embedded in the Send Message response '
+    '(cfg bridge = ack | embedded); replies of a bridged exchange are lost / withheld together',
+    'model covers unbridged targets; max_retries: the theorems hold for every value, the '
     'real code is run with 0, 1 and 2; clause (Q) - consecutive datagrams carry different IPMB request sequence '
     'numbers - is proved and judged for max_retries = 0 only (a retransmission repeats the request sequence number '
     'of the datagram it repeats, as IPMI intends)',
@@ -147,30 +171,30 @@ class Bmc(object):
         return b'\x06\x00\xff\x07' + hdr + bytes([len(ipmb)]) + ipmb
 
     def handle(self, pdu, serial):
-        """-> (reply datagram or None, (session seq, rq_seq, cmd))"""
-        if len(pdu) < 4 or pdu[0] != 6:
-            self.notes.append('not RMCP: %s' % pdu.hex())
-            return None, (0, 0, 0)
-        if pdu[3] == 0x06:      # ASF: presence ping -> pong
-            tag = pdu[9] if len(pdu) > 9 else 0
-            pong = struct.pack('!IBBxB', 4542, 0x40, tag, 16) + struct.pack('!IIBB6x', 4542, 0, 0x81, 0)
-            return b'\x06\x00\xff\x06' + pong, (0, 0, 0)
-        if pdu[3] != 0x07:
-            self.notes.append('unknown RMCP class %#x' % pdu[3])
-            return None, (0, 0, 0)
-        auth = pdu[4]
-        seq = struct.unpack('<I', pdu[5:9])[0]
-        sid = struct.unpack('<I', pdu[9:13])[0]
-        off = 13 + (16 if auth != 0 else 0)
-        ln = pdu[off]
-        msg = pdu[off + 1:off + 1 + ln]
-        if len(msg) < 7 or len(pdu) != off + 1 + ln:
-            self.notes.append('malformed IPMI datagram %s' % pdu.hex())
-            return None, (seq, 0, 0)
+        """-> (reply datagram or None, (session seq, rq_seq, cmd)); the first datagram of `handle_all`"""
+        replies, info = self.handle_all(pdu, serial)
+        return (replies[0] if replies else None), info
+
+    def _answers(self, msg, serial, mode):
+        """IPMB response frame(s) to the IPMB request `msg` (IPMI v1.5 Figure 'IPMB/LAN message formats').  A Send
+        Message request with an embedded message (netFn App, command 34h; data = channel byte with the tracking bits,
+        then a complete IPMB request) is answered by the bridge: `mode` 'ack' - the Send Message response itself, a bare
+        acknowledgement (completion code only), and then, one datagram each, what the addressed node answered, delivered
+        in the same envelope (so two bridges give acknowledgement, wrapped acknowledgement, doubly wrapped reply);
+        `mode` 'embedded' - one datagram: the Send Message response carries the node's answer as its data."""
         rs_sa, nf_lun, _, rq_sa, seq_lun, cmd = msg[0], msg[1], msg[2], msg[3], msg[4], msg[5]
         data = msg[6:-1]
         netfn, rs_lun = nf_lun >> 2, nf_lun & 3
         rq_seq, rq_lun = seq_lun >> 2, seq_lun & 3
+
+        def rsp(rdata):
+            h1 = bytes([rq_sa, ((netfn | 1) << 2) | rq_lun])
+            body = bytes([rs_sa, (rq_seq << 2) | rs_lun, cmd]) + rdata
+            return h1 + bytes([_csum(h1)]) + body + bytes([_csum(body)])
+        if netfn == 6 and cmd == 0x34 and len(data) >= 8:       # Send Message carrying an IPMB request
+            inner = self._answers(bytes(data[1:]), serial, mode)
+            out = [] if mode == 'embedded' else [rsp(b'\x00')]
+            return out + [rsp(b'\x00' + r) for r in inner]
         if netfn == 6 and cmd == 0x38:      # Get Channel Authentication Capabilities
             support = {0: 0x01, 2: 0x04, 4: 0x10}[self.auth]
             rdata = bytes([0, 1, support, 0, 0, 0, 0, 0, 0])
@@ -187,10 +211,32 @@ class Bmc(object):
             # the datagram this reply answers
             rdata = bytes([0, 0x20, 0x81, 0x01, 0x02, 0x51, 0xbf, 0x3a, 0x98, 0x00, 0x34, 0x12]) + \
                 struct.pack('<I', serial & 0xffffffff)
-        h1 = bytes([rq_sa, ((netfn | 1) << 2) | rq_lun])
-        body = bytes([rs_sa, (rq_seq << 2) | rs_lun, cmd]) + rdata
-        ipmb = h1 + bytes([_csum(h1)]) + body + bytes([_csum(body)])
-        return self._wrap(auth, sid, ipmb), (seq, rq_seq, cmd)
+        return [rsp(rdata)]
+
+    def handle_all(self, pdu, serial, mode='ack'):
+        """-> (reply datagrams in the order they are delivered, (session seq, rq_seq, cmd)): one for a request the BMC
+        (or an IPMB node addressed directly) answers itself, more for a bridged one (`_answers`)"""
+        if len(pdu) < 4 or pdu[0] != 6:
+            self.notes.append('not RMCP: %s' % pdu.hex())
+            return [], (0, 0, 0)
+        if pdu[3] == 0x06:      # ASF: presence ping -> pong
+            tag = pdu[9] if len(pdu) > 9 else 0
+            pong = struct.pack('!IBBxB', 4542, 0x40, tag, 16) + struct.pack('!IIBB6x', 4542, 0, 0x81, 0)
+            return [b'\x06\x00\xff\x06' + pong], (0, 0, 0)
+        if pdu[3] != 0x07:
+            self.notes.append('unknown RMCP class %#x' % pdu[3])
+            return [], (0, 0, 0)
+        auth = pdu[4]
+        seq = struct.unpack('<I', pdu[5:9])[0]
+        sid = struct.unpack('<I', pdu[9:13])[0]
+        off = 13 + (16 if auth != 0 else 0)
+        ln = pdu[off]
+        msg = pdu[off + 1:off + 1 + ln]
+        if len(msg) < 7 or len(pdu) != off + 1 + ln:
+            self.notes.append('malformed IPMI datagram %s' % pdu.hex())
+            return [], (seq, 0, 0)
+        return [self._wrap(auth, sid, ipmb) for ipmb in self._answers(bytes(msg), serial, mode)], \
+            (seq, msg[4] >> 2, msg[5])
 
 
 def _serial_of(data):
@@ -250,22 +296,22 @@ class FakeSock(object):
             s.yield_point('tx')
         serial = env.serial if on else -1
         if on and env.stash is not None:        # a late reply arrives before the next request is answered
-            env.rxq.append(env.stash)
+            env.rxq.extend(env.stash)
             env.stash = None
-        reply, (seq, rq, cmd) = env.bmc.handle(bytes(pdu), serial)
-        if on and reply is not None and env.cfg.get('late') == serial:
-            env.stash, reply = (reply, serial), None
-        if on and reply is not None and serial in env.lose:
+        # (a bridged request is answered by more than one datagram: acknowledgement(s), then the wrapped reply)
+        replies, (seq, rq, cmd) = env.bmc.handle_all(bytes(pdu), serial, env.cfg.get('bridge') or 'ack')
+        if on and replies and env.cfg.get('late') == serial:
+            env.stash, replies = [(r, serial) for r in replies], []
+        if on and replies and serial in env.lose:
             env.lost.append(serial)     # lost for good: the sender's recvfrom will time out
-            reply = None
+            replies = []
         if on:
             env.serial += 1
             tid = s.tid()
             s.emit('tx', serial, seq, rq, cmd)
             env.wire.append('T:%d:%d:%d:%d:%d' % (tid, serial, seq, rq, cmd))
             env.cur_tx.setdefault(tid, []).append(serial)
-        if reply is not None:
-            env.rxq.append((reply, serial))
+        env.rxq.extend((r, serial) for r in replies)
         return len(pdu)
 
     def recvfrom(self, n):
@@ -407,6 +453,52 @@ class Out(object):
     pass
 
 
+# who a worker talks to (cfg['targets'][i]; absent = every worker addresses the BMC like the keep-alive does)
+TARGETS_DOC = {
+    'h': 'the BMC itself (Rmcp.host_target, 20h) - what the keep-alive and Close Session address',
+    'i': 'Target(82h): another IPMB address, NOT bridged (the request goes out as it is, rsSA 82h)',
+    'j': 'Target(72h): a second un-bridged address',
+    'r': 'Target(82h, routing=[(81h,20h,0),(20h,82h,None)]): behind the BMC, one Send Message envelope',
+    'rr': 'Target(72h, routing=[(81h,20h,0),(20h,82h,7),(20h,72h,None)]): behind two bridges, two envelopes',
+}
+_ADDR = {'h': 0x20, 'i': 0x82, 'j': 0x72, 'r': 0x82, 'rr': 0x72}
+
+
+def _target(rm, kind):
+    from pyipmi import Target
+    if kind == 'h':
+        return rm.host_target
+    if kind == 'i':
+        return Target(0x82)
+    if kind == 'j':
+        return Target(0x72)
+    if kind == 'r':
+        return Target(0x82, routing=[(0x81, 0x20, 0), (0x20, 0x82, None)])
+    if kind == 'rr':
+        return Target(0x72, routing=[(0x81, 0x20, 0), (0x20, 0x82, 7), (0x20, 0x72, None)])
+    raise ValueError(kind)
+
+
+def _targets(cfg):
+    """target kind per worker"""
+    t = cfg.get('targets') or []
+    return [t[i] if i < len(t) else 'h' for i in range(len(cfg['workers']))]
+
+
+def _routed(cfg):
+    """some worker addresses a bridged target: exchanges of more than one datagram (clause X' of the monitor)"""
+    return any(k in ('r', 'rr') for k in _targets(cfg))
+
+
+def _different_targets(cfg):
+    """do the threads of this configuration address more than one IPMB address?  (the keep-alive and Close Session
+    address the BMC)"""
+    addrs = set(_ADDR[k] for k, w in zip(_targets(cfg), cfg['workers']) if w[0] > 0)
+    if cfg['ka'] or cfg.get('closer') is not None:
+        addrs.add(0x20)
+    return len(addrs) > 1
+
+
 def execute(cfg, policy, record=False):
     """Run the real code once under `policy`.  cfg: workers [[calls, cmd]…], ka, auth, ss0, ns0, gran,
     closer (index of the worker that ends with close_session(), or None)."""
@@ -434,11 +526,14 @@ def execute(cfg, policy, record=False):
 
         nworkers = len(cfg['workers'])
 
+        kinds = _targets(cfg)
+
         def worker(me, calls, cmd):
             def body():
+                tgt = _target(rm, kinds[me])
                 for _ in range(calls):
                     try:
-                        rm.send_and_receive_raw(rm.host_target, 0, 6, bytes([cmd]))
+                        rm.send_and_receive_raw(tgt, 0, 6, bytes([cmd]))
                     except Exception:   # recorded by the wrapper; the thread goes on like a caller would
                         pass
                 if cfg.get('closer') == me:
@@ -627,11 +722,16 @@ def judge(ctx, cfg, out, drv, model=True, choices=None):
         ctx.disagree('scheduler', case, 'complete', '%s (threads blocked outside the scheduler: %s)' % (
             out.status, getattr(out, 'leaked', '?')))
         return sigs
-    verdict = drv.ask('mon %s | %s' % (' '.join(out.wire), ' '.join(rtoks)))
+    routed = _routed(cfg)
+    # bridged targets: an exchange is tx (rx)+ owned by one thread (Spec.Threads.acceptsMulti, clause X')
+    verdict = drv.ask('%s %s | %s' % ('monm' if routed else 'mon', ' '.join(out.wire), ' '.join(rtoks)))
     if verdict != 'ok':
         flags = dict(x.split('=') for x in verdict.split()[1:]) if verdict.startswith('bad ') else {}
         if flags.get('X') == '0':
             sig, what = 'C14:exchanges-interleaved', 'request/reply exchanges of different threads are interleaved on the socket'
+            if out.drained:
+                what += ' (%s)' % ', '.join('thread %d discarded the reply to datagram %d before sending its own request' % d
+                                            for d in out.drained[:3])
         elif flags.get('C') == '0':
             after = _after_close(out.wire)
             sig, what = 'C14:datagram-after-close', (
@@ -653,6 +753,20 @@ def judge(ctx, cfg, out, drv, model=True, choices=None):
             sig, what = 'C14:caller-did-not-get-own-reply', 'a caller did not receive the reply to its own request'
         else:
             sig, what = 'C14:monitor-input', 'wire log not understood by the monitor: ' + verdict
+        if cfg.get('targets') and _different_targets(cfg) and not sig.startswith('C14:monitor'):
+            # does it take threads that address DIFFERENT targets?  Control: the same configuration and schedule with
+            # every worker addressing the BMC
+            ctl = dict(cfg)
+            ctl.pop('targets')
+            q = _Quiet()
+            cout = execute(ctl, S.ReplayPolicy(out.choices if choices is None else choices))
+            if cout.status == 'complete' and not judge(q, ctl, cout, drv, model=False):
+                sig += ':threads-addressing-different-targets'
+                what += ('; the threads address different targets (%s; the keep-alive and Close Session address the BMC) - '
+                         'with every worker addressing the BMC the same schedule is clean: exchanges with different '
+                         'responders are not serialised against each other' % ', '.join(
+                             'thread %d: %s' % (i, TARGETS_DOC[k].split(':')[0].split(' (')[0])
+                             for i, k in enumerate(_targets(cfg))))
         sigs.append(sig)
         ctx.violate(sig, what, case, expected='Spec.Threads.accepts (X: tx/rx pairs of one thread, S: increasing over the '
                     'whole wire log, retransmissions included, O: own reply or an error after a time-out, C: nothing '
@@ -668,7 +782,9 @@ def judge(ctx, cfg, out, drv, model=True, choices=None):
         sigs.append('C14:session-left-active')
         ctx.violate('C14:session-left-active', 'close_session() returned and the session is still marked activated', case,
                     expected='Session.activated == False', observed={'results': rtoks, 'notes': out.notes})
-    if model:
+    if model and not routed:
+        # (the Lean model has un-bridged exchanges - one reply per datagram; whom an un-bridged request addresses makes
+        # no difference to it: ONE lock.  Schedules with bridged targets are judged by the monitor only.)
         xl = 1 if cfg['auth'] == 'md5' else 0
         cl = _closer(cfg)
         ans = drv.ask('run %d %d %d %s %s %s %d %d %d %s %d | %s' % (
@@ -710,8 +826,13 @@ def _after_close(wire):
 
 
 # ------------------------------------------------------------------------- exploration
-def _cfg(workers, ka, auth='none', ss0=0x10, ns0=4, gran='sync', closer=None, mr=0, lose=None):
+def _cfg(workers, ka, auth='none', ss0=0x10, ns0=4, gran='sync', closer=None, mr=0, lose=None, targets=None,
+         bridge=None):
     c = {'workers': [list(w) for w in workers], 'ka': ka, 'auth': auth, 'ss0': ss0, 'ns0': ns0, 'gran': gran}
+    if targets and any(k != 'h' for k in targets):
+        c['targets'] = list(targets)    # who each worker talks to (TARGETS_DOC); absent: the BMC
+    if bridge:
+        c['bridge'] = bridge            # how the fake BMC answers a bridged request: 'ack' (default) | 'embedded'
     if closer is not None:
         c['closer'] = closer
     if mr:
@@ -751,6 +872,21 @@ def _measure(ctx, cfg, out):
     ctx.count('auth:' + cfg['auth'])
     if cfg['ka']:
         ctx.count('with-keep-alive')
+    if cfg.get('targets'):
+        for k in set(_targets(cfg)):
+            ctx.count('target:%s' % {'h': 'BMC', 'i': 'other-address-unbridged', 'j': 'other-address-unbridged',
+                                     'r': 'bridged-1-envelope', 'rr': 'bridged-2-envelopes'}[k])
+        if _different_targets(cfg):
+            ctx.count('threads-addressing-different-targets')
+        if _routed(cfg):
+            ctx.count('bridge-answers:%s' % (cfg.get('bridge') or 'ack'))
+            nrx = {}
+            for w in out.wire:
+                p = w.split(':')
+                if p[0] == 'R':
+                    nrx[p[2]] = nrx.get(p[2], 0) + 1
+            if nrx:
+                ctx.count('datagrams-per-bridged-exchange:%d' % (1 + max(nrx.values())))
     if cfg.get('mr'):
         ctx.count('max_retries:%d' % cfg['mr'])
         ka, cl = len(cfg['workers']), _closer(cfg)
@@ -877,7 +1013,9 @@ def _systematic(ctx, drv, cfg, bound, st, limit, should_stop):
         out = _one(ctx, drv, cfg, S.ReplayPolicy(prefix), st, record=True)
         return out.record if out.status == 'complete' else None
     n, trunc = S.explore(ex, bound, limit=limit, should_stop=should_stop)
-    key = 'systematic %s %s ka=%d%s%s bound=%d' % (cfg['gran'], 'x'.join(str(c) for c, _ in cfg['workers']), cfg['ka'],
+    key = 'systematic %s %s%s ka=%d%s%s bound=%d' % (cfg['gran'], 'x'.join(str(c) for c, _ in cfg['workers']),
+                                                   '' if not cfg.get('targets') else ' targets=%s/%s' % (
+                                                       ','.join(_targets(cfg)), cfg.get('bridge') or 'ack'), cfg['ka'],
                                                    '' if _closer(cfg) is None else ' closer=%d' % _closer(cfg),
                                                    '' if not cfg.get('mr') else ' max_retries=%d lose=%s' % (
                                                        cfg['mr'], cfg.get('lose')), bound)
@@ -912,7 +1050,12 @@ def _random_cfg(rng, gran):
         mr = rng.choice([1, 1, 2])
         total = sum(c for c, _ in workers) + ka + (1 if closer is not None else 0)
         lose = rng.sample(range(total + 3), rng.choice([1, 1, 2, 3]))
-    return _cfg(workers, ka, auth, ss0, ns0, gran, closer, mr, lose)
+    targets = bridge = None
+    if rng.random() < 0.25:
+        # the workers address different targets: the BMC, other IPMB addresses un-bridged, behind one / two bridges
+        targets = [rng.choice(['h', 'i', 'j', 'r', 'r', 'rr']) for _ in range(nw)]
+        bridge = rng.choice(['ack', 'ack', 'embedded'])
+    return _cfg(workers, ka, auth, ss0, ns0, gran, closer, mr, lose, targets, bridge)
 
 
 # (granularity, workers, keep-alive firings, preemption bound quick, thorough, closing worker); None = not
@@ -971,7 +1114,7 @@ def _explore_all(ctx, drv, effort):
             _systematic(ctx, drv, cfg, bound, st, 60000, lambda: time.time() > t_sys)
         # ---- C: random, source-line granularity;  D: random, shared-access granularity
         n_line = n_acc = 0
-        cap = 900 if quick else 60000
+        cap = 700 if quick else 60000
         while time.time() < t_end and n_line + n_acc < cap:
             gran = 'line' if (n_line + n_acc) % 3 != 2 else 'access'
             cfg = _random_cfg(rng, gran)
@@ -1170,6 +1313,53 @@ def _retry_stream(ctx, drv, budget_s):
     ctx.extra['retransmission_stream'] = {'schedules': n, 'wall_s': round(time.time() - t0, 1)}
 
 
+# (granularity, workers, target per worker, keep-alive ticks, closing worker, bridge answers, bound quick, bound thorough)
+TARGET_CFGS = [
+    ('sync', [(1, 1)], ['r'], 1, None, 'ack', 2, 4),                 # a bridged request next to the keep-alive
+    ('access', [(1, 1)], ['i'], 1, None, 'ack', 1, 3),               # another IPMB address, un-bridged, and the keep-alive
+    ('sync', [(1, 1), (1, 1)], ['h', 'i'], 0, None, 'ack', 2, 4),    # two callers, the BMC and another address
+    ('sync', [(1, 1), (1, 4)], ['r', 'h'], 1, None, 'embedded', 1, 2),
+    ('sync', [(1, 1)], ['rr'], 1, None, 'ack', 1, 3),                # two bridges: three datagrams answer one
+    ('sync', [(2, 1), (1, 1)], ['i', 'r'], 0, None, 'ack', 1, 3),    # the same address bridged and un-bridged
+    ('access', [(1, 1), (1, 1)], ['r', 'j'], 0, None, 'ack', 1, 3),
+    ('sync', [(1, 1), (0, 1)], ['r', 'h'], 1, 1, 'ack', 1, 2),       # … and a thread that closes the session
+    ('sync', [(1, 1), (1, 1), (1, 1)], ['i', 'j', 'rr'], 0, None, 'embedded', None, 2),
+    ('access', [(1, 1), (1, 1)], ['rr', 'h'], 1, None, 'ack', None, 1),
+]
+
+
+def _target_stream(ctx, drv, budget_s):
+    """Threads that address DIFFERENT targets on one interface: an application thread talking to another IPMB address
+    (un-bridged) or to a node behind one / two bridges (the fake BMC answers a Send Message with acknowledgement(s) and
+    the wrapped reply - two or three datagrams - or with the reply embedded in one), next to the keep-alive, other
+    application threads and Close Session, which address the BMC.  Every schedule within a preemption bound; judged by
+    the Lean monitor (multi-datagram form: an exchange is tx (rx)+ owned by one thread); un-bridged configurations are
+    validated against the Lean model as well."""
+    import time
+    t0 = time.time()
+    t_end = t0 + budget_s
+    st = {'violations': 0, 'shrunk': set()}
+    n = 0
+    auths = ['none', 'md5', 'password']
+    try:
+        # first every configuration once without preemption, then within the bound
+        rows = [r for r in TARGET_CFGS if (r[6] if ctx.tier == 'quick' else r[7]) is not None]
+        cfgs = [_cfg(row[1], row[3], auths[i % 3], ss0=0xfffffffe if i % 4 == 3 else 0x70 + i, ns0=63 if i % 3 == 1 else 7,
+                     gran=row[0], closer=row[4], targets=row[2], bridge=row[5]) for i, row in enumerate(rows)]
+        for cfg in cfgs:
+            _one(ctx, drv, cfg, S.ReplayPolicy([]), st)
+            n += 1
+        for row, cfg in zip(rows, cfgs):
+            if time.time() > t_end:
+                ctx.notes.append('different-targets stream: stopped before %s (time budget)' % (row[1:4],))
+                break
+            n += _systematic(ctx, drv, cfg, row[6] if ctx.tier == 'quick' else row[7], st,
+                             1500 if ctx.tier == 'quick' else 60000, lambda: time.time() > t_end)
+    except Stop:
+        ctx.notes.append('different-targets stream stopped after %d violating schedules' % st['violations'])
+    ctx.extra['different_targets_stream'] = {'schedules': n, 'wall_s': round(time.time() - t0, 1)}
+
+
 def run(ctx):
     drv = ctx.driver('drv_c14')
     if drv.ask('ping') != 'pong':
@@ -1179,6 +1369,7 @@ def run(ctx):
     _variant_probe(ctx)
     _late_reply_stream(ctx, drv, 8 if ctx.tier == 'quick' else 120)
     _retry_stream(ctx, drv, 7 if ctx.tier == 'quick' else 100)
+    _target_stream(ctx, drv, 3 if ctx.tier == 'quick' else 80)
     _explore_all(ctx, drv, ctx.tier)
 
 
